@@ -312,6 +312,25 @@ def pool_rules(repo, res):
 
     report("PAIR-RELEASE", "remove_obstacle", "list of contained obstacles", rem_list, "after removing a list the id pool is not exactly the set of ids of the contained objects")
 
+    # list forms of the network objects: two contained ones (and one that is not contained in between)
+    for kind, second in (("lanelet", 27), ("traffic_sign", 28), ("traffic_light", 29)):
+        def rem_two(kind=kind, second=second):
+            w = World(repo)
+            x2 = mk(repo, kind, second)
+            w.net.store[kind][second] = x2
+            w.scenario.fields["_id_set"].items.append(second)
+            stranger = mk(repo, kind, fresh[kind])
+            kw = {"referenced_elements": False} if kind == "lanelet" else {}
+            w.call(REMOVER[kind], [ListV([w.objs[kind], stranger, x2])], kw)
+            bad = w.pool_problems()
+            first = [v for k, v in w.objs[kind].fields.items() if k.endswith("_id") and isinstance(v, int)][0]
+            left = {first, second} & set(w.contained_ids())
+            if left:
+                bad.append("still contained: %s" % sorted(left))
+            return [b for b in bad if b]
+
+        report("PAIR-RELEASE", REMOVER[kind], "list of two contained %ss with one in between that is not contained" % kind.replace("_", " "), rem_two, "after removing a list the id pool is not exactly the set of ids of the contained objects")
+
     def rem_lanelet_with_members():
         w = World(repo)
         la = w.objs["lanelet"]
